@@ -53,7 +53,7 @@ Qed.
 (** Any damage to the Stream Flags of a Stream Header (stored CRC32 intact) is rejected *)
 Theorem stream_header_flags_damage_rejected fuel f0 f1 g0 g1 rest :
   byte_ok f0 -> byte_ok f1 -> byte_ok g0 -> byte_ok g1 -> [g0; g1] <> [f0; f1] ->
-  xstatus (stream_decode fuel true
+  xstatus (stream_decode fuel false true
      (xz_init (HEADER_MAGIC ++ [g0; g1] ++ le_bytes 4 (crc32 [f0; f1] 0) ++ rest))) = DataError.
 Proof.
   intros Hf0 Hf1 Hg0 Hg1 Hne.
